@@ -105,8 +105,15 @@ func genStream(rng *vRNG, cam pCamera, edge int, o streamOpts) []*pFrame {
 			}
 			f.Pix[hy][hx] = hot
 		}
+		// a frame whose first bytes look like the start of the 'clear' marker (only the
+		// full 5-byte marker is a reset); boson frames begin with pixel data
+		if cam.Model == "boson" && edge > 0 && rng.Chance(10) {
+			f.Pix[0][0], f.Pix[0][1] = 0x6c63, 0x6165 // "clea" little-endian
+			f.Pix[0][2] = uint16(rng.PickInt(0x0073, 0x7200, 0x0052, 0x1234))
+			f.MarkerLike = true
+		}
 		// border zeros are legal when the edge is excluded
-		if edge > 0 && rng.Chance(20) {
+		if edge > 0 && !f.MarkerLike && rng.Chance(20) {
 			f.Pix[0][rng.Intn(cam.ResX)] = 0
 			f.Pix[cam.ResY-1][rng.Intn(cam.ResX)] = 0
 		}
@@ -122,10 +129,15 @@ func genStream(rng *vRNG, cam pCamera, edge int, o streamOpts) []*pFrame {
 func feedStream(cam pCamera, hdr []byte, frames []*pFrame, cw *chunkWriter) func(w io.Writer) error {
 	return func(w io.Writer) error {
 		cw.w = w
-		if err := cw.Write(hdr); err != nil {
-			return err
+		// header and frames form one byte stream: segment boundaries fall anywhere, and
+		// often the write that carries the end of the header also carries frame bytes
+		buf := append([]byte{}, hdr...)
+		if cw.rng.Chance(30) {
+			if err := cw.Write(buf); err != nil {
+				return err
+			}
+			buf = buf[:0]
 		}
-		var buf []byte
 		for _, f := range frames {
 			if f.Clear {
 				buf = append(buf, []byte("clear")...)
@@ -367,6 +379,11 @@ func TestVerif_C14Pipe(t *testing.T) {
 			c.Count("frames_sent", int64(nFrames))
 			c.Count("clear_markers", int64(nClears))
 			c.Count("socket_writes", cw.cuts)
+			for _, f := range frames {
+				if f.MarkerLike {
+					c.Count("frames_starting_like_the_marker", 1)
+				}
+			}
 			c.Count("motion_files", int64(len(mfiles)))
 			c.Seen("chunk_modes", fmt.Sprint(cw.mode))
 			c.Seen("cameras", fmt.Sprintf("%s %dx%d", cam.Model, cam.ResX, cam.ResY))
